@@ -54,6 +54,22 @@ class Boom(Exception):
     pass
 
 
+class FalsyBoom(Boom):
+    """an exception object whose truth value is False (empty error collections look like
+    this): it is still the exception the function raised"""
+
+    def __bool__(self) -> bool:
+        return False
+
+
+class FalsyValue:
+    def __bool__(self) -> bool:
+        return False
+
+    def __len__(self) -> int:
+        return 0
+
+
 class Monitor:
     def __init__(self, total: int) -> None:
         self.lock = threading.Lock()
@@ -129,8 +145,9 @@ def execute(case: dict) -> dict:
     mon = Monitor(case["total"])
     cv: contextvars.ContextVar = contextvars.ContextVar("vf_c14", default=None)
     gates = [threading.Event() for _ in range(n)]
-    results = [("val", i, object()) for i in range(n)]
-    booms = [Boom(i) for i in range(n)]
+    # every third call traffics in objects whose truth value is False
+    results = [FalsyValue() if i % 3 == 2 else ("val", i, object()) for i in range(n)]
+    booms = [FalsyBoom(i) if i % 3 == 2 else Boom(i) for i in range(n)]
     seen: list = [dict() for _ in range(n)]
     scopes: dict = {}
     outcomes: list = [None] * n
